@@ -145,6 +145,41 @@ def _index_guarded(fn: FuncInfo, n: ast.Subscript, pm: Dict[ast.AST, ast.AST]) -
                 assigns = [a for a in walk_no_nested(fn.node) if isinstance(a, ast.Assign) and any(norm(t2) == idx for t2 in a.targets)]
                 if len(assigns) <= 1:
                     return True
+
+    def stores_idx(node: ast.AST) -> bool:
+        for a in ast.walk(node):
+            if isinstance(a, ast.Assign) and any(norm(t2) == idx or (isinstance(t2, (ast.Tuple, ast.List)) and any(norm(x) == idx for x in t2.elts)) for t2 in a.targets):
+                return True
+            if isinstance(a, (ast.AugAssign, ast.AnnAssign)) and norm(a.target) == idx:
+                return True
+            if isinstance(a, ast.NamedExpr) and norm(a.target) == idx:
+                return True
+        return False
+
+    # the statement that holds the subscript, and the block it stands in
+    stmt: ast.AST = n
+    while stmt in pm and not isinstance(stmt, ast.stmt):
+        stmt = pm[stmt]
+    block_owner = pm.get(stmt)
+    for field in ("body", "orelse", "finalbody"):
+        block = getattr(block_owner, field, None) if block_owner is not None else None
+        if isinstance(block, list) and stmt in block:
+            pos = block.index(stmt)
+            # (a) an earlier statement of the same block leaves it (raise / break / continue / return) when the index is out
+            # of range, and nothing in between stores the index
+            for j in range(pos - 1, -1, -1):
+                prev = block[j]
+                if isinstance(prev, ast.If) and not prev.orelse and prev.body and isinstance(prev.body[-1], (ast.Raise, ast.Break, ast.Continue, ast.Return)):
+                    tt = truth_table(prev.test)
+                    if tt is not None and all(val for (i, ln), val in tt.items() if i >= ln) and not any(stores_idx(x) for x in block[j + 1 : pos]):
+                        return True
+                if stores_idx(prev):
+                    break
+            # (b) the block is the body of a `while` whose test implies the bound, and nothing before the subscript stores it
+            if isinstance(block_owner, ast.While) and field == "body":
+                tt = truth_table(block_owner.test)
+                if tt is not None and all((not val) or i < ln for (i, ln), val in tt.items()) and not any(stores_idx(x) for x in block[:pos]) and not stores_idx(stmt) or (isinstance(block_owner, ast.While) and field == "body" and tt is not None and all((not val) or i < ln for (i, ln), val in tt.items()) and not any(stores_idx(x) for x in block[:pos]) and isinstance(stmt, ast.Assign) and not any(norm(t2) == idx for t2 in stmt.targets)):
+                    return True
     return False
 
 
@@ -341,7 +376,10 @@ def rule_r2(ctx: Ctx) -> None:
                     count = C.eval_abs(C._subst_atoms(rep[0][1], {"read": length}), {})
                 except (KeyError, TypeError):
                     count = None
-            if r.raised or len(rep) != 1 or count != length:
+            elif not rep:
+                # a loop that compares a running count with the length read unrolls into one run per length: count the elements
+                count = sum(1 for e in evs if e[0] == "EMIT")
+            if r.raised or len(rep) > 1 or count != length:
                 bad.append({"length": length, "capacity": cap, "found": r.raised or "elements decoded: %s" % count})
         ctx.check(not bad, "_serdes._deserialize_array[%s]" % arr.name, "array length guard", "a length prefix above the capacity is ArrayLengthError; otherwise exactly that many elements are decoded (no clamping)", where, bad[:4])
     # ---- unions
